@@ -196,6 +196,16 @@ func RunCheck(id, tier string, seed uint64, replay string) int {
 		dist[k] = len(s)
 	}
 	cov["distinct_sets"] = dist
+	vals := map[string][]string{}
+	for k, s := range total.sets {
+		if len(s) <= 12 {
+			for v := range s {
+				vals[k] = append(vals[k], v)
+			}
+			sort.Strings(vals[k])
+		}
+	}
+	cov["distinct_values"] = vals
 	if p.Exhaustive != nil && p.Exhaustive(tier) && newViol == 0 && len(total.incs) == 0 {
 		cov["exhaustive"] = true
 	}
